@@ -114,6 +114,10 @@ def inject(cfg, fault):
         cfg.setdefault('macros', {})['zero'] = [{'instructions': ['nop']}]
     elif fault == 'macro_same_as_instruction':
         cfg.setdefault('macros', {})['nop'] = [{'instructions': ['ld 1']}]
+    elif fault == 'macro_same_as_instruction_other_case':
+        # the instruction is declared in upper case, the macro in lower case: the same name, mnemonics are case-insensitive
+        cfg['instructions']['MVU'] = {'bytecode': {'value': 8, 'size': 8}}
+        cfg.setdefault('macros', {})['mvu'] = [{'instructions': ['nop']}]
     elif fault == 'zone_inverted':
         cfg.setdefault('predefined', {}).setdefault('memory_zones', []).append({'name': 'badz', 'start': 20, 'end': 10})
     elif fault == 'zone_beyond_width':
@@ -138,6 +142,11 @@ def build(e):
             name = 'isa.json'
     elif s['kind'] == 'minver':
         cfg['general']['min_version'] = vtext(s['v'])
+    elif s['kind'] == 'requiredef':
+        cfg['general'].pop('identifier', None)
+        name = 'gen.isa.v2.yaml'
+        lang = {'same': 'gen.isa.v2', 'prefix': 'gen', 'other': 'gen.isa', 'longer': 'gen.isa.v2.yaml'}[s['name']]
+        src = f'#require "{lang}"\n' + src
     else:
         cfg['general']['identifier'] = {'name': 'genisa', 'version': vtext(s['iv'])}
         lang = {'same': 'genisa', 'other': 'otherisa', 'prefix': 'gen', 'suffix': 'isa', 'infix': 'enis', 'longer': 'genisa2', 'empty': ''}[s['name']]
